@@ -4,7 +4,7 @@
    continuation, [resume] = the next ParseTokens call), regexes generated from lexer.go. *)
 From Coq Require Import ZArith List Bool.
 From ZV Require Import Model.Regex Generated.LexTables Model.Lexer Model.Reader Model.TokScan Proofs.LexerProofs Proofs.ReaderProofs
-  Proofs.RegexProofs Proofs.ReaderTotal Proofs.LexerWF Proofs.ReaderUnfinished Proofs.SugarTokens Proofs.ScanSim Proofs.LexerBC Proofs.Unfinished Proofs.OpSpacing Proofs.ReaderFinal.
+  Proofs.RegexProofs Proofs.ReaderTotal Proofs.LexerWF Proofs.ReaderUnfinished Proofs.SugarTokens Proofs.ScanSim Proofs.LexerBC Proofs.Unfinished Proofs.OpSpacing Proofs.ReaderFinal Model.ReaderSession Proofs.ReaderSession.
 Import ListNotations.
 Open Scope Z_scope.
 
@@ -316,3 +316,65 @@ Proof. vm_compute. repeat split; reflexivity. Qed.
 
 Example ex_pieces_ok : pieces_ok false [40; 97] [[32; 98; 41; 10]].
 Proof. vm_compute. repeat split; auto. Qed.
+
+(* ---- 9. sessions (Model/ReaderSession.v) ----
+   (a) the REPL's line reader, repl.go:getExpressionWithLiner, for ALL line lists, ALL lines (blank and
+   whitespace-only ones included) and ANY state p the interpreter's parser was left in: the lines it consumes
+   are a prefix of the lines typed; what it returns is the whole-text parse of exactly the text it reports
+   (strings.Join(lines, "\n")); it reads one more line exactly as long as the text so far asks for more input
+   (every proper line prefix of the reported text is an unfinished text, the reported text is not); if the
+   input ends first, the whole entry is an unfinished text. *)
+Theorem repl_is_whole : forall cfix fuel p lines used o,
+  repl_read true cfix fuel p lines = (used, Some o) ->
+  (exists rest, lines = used ++ rest) /\ used <> nil /\
+  o = parse_whole true cfix fuel (join_lines used) /\ fst (observe o) <> StMore /\
+  (forall j, (0 < j < length used)%nat ->
+     fst (observe (parse_whole true cfix fuel (join_lines (firstn j used)))) = StMore).
+Proof. exact ReaderSession.repl_is_whole. Qed.
+Print Assumptions repl_is_whole.
+
+Theorem repl_eof_is_unfinished : forall cfix fuel p lines used,
+  repl_read true cfix fuel p lines = (used, None) ->
+  used = lines /\
+  (lines <> nil -> fst (observe (parse_whole true cfix fuel (join_lines lines))) = StMore).
+Proof. exact ReaderSession.repl_eof_is_unfinished. Qed.
+Print Assumptions repl_eof_is_unfinished.
+
+(* (b) history independence over CALL histories: after ANY sequence of ResetAddNewInput / NewInput /
+   ParseTokens / Parser.Reset / Parser.Stop calls (sequences outside the delivery protocol included: streams
+   queued and never parsed, Stop or Reset while the coroutine is suspended inside a form, whatever the
+   unwinding coroutine leaves in the reply record it holds and in the lexer), a complete text read through either
+   route (ResetAddNewInput; ParseTokens  /  Reset; NewInput; ParseTokens) is read as by a new parser. *)
+Theorem call_history_independent : forall cfix fuel unwind strict via_reset history text,
+  read_after strict cfix fuel unwind via_reset history text = parse_whole strict cfix fuel text.
+Proof. exact ReaderSession.read_after_any. Qed.
+Print Assumptions call_history_independent.
+
+(* (c) chunk independence with queued pieces: the text in ANY pieces, ParseTokens called only after the pieces
+   a schedule names (the others wait in the lexer's stream queue), after ANY call history = the text whole. *)
+Theorem queued_pieces_independent : forall cfix fuel unwind history pieces sched,
+  read_pieces_after true cfix fuel unwind history pieces sched = parse_whole true cfix fuel (concat pieces).
+Proof. exact ReaderSession.read_pieces_after_any. Qed.
+Print Assumptions queued_pieces_independent.
+
+(* non-vacuity: the entry "(a", "", "  ", "b)", "c": four lines are consumed, the blank and the whitespace-only
+   line are part of the text; "`x", "", "y`" keeps the blank line inside the raw string; EOF inside a form *)
+Definition repl_obs (x : list (list Z) * option outcome) := (length (fst x), option_map observe (snd x)).
+Example ex_repl :
+  repl_obs (repl_read true true 100 (p_init 100) [[40; 97]; []; [32; 32]; [98; 41]; [99]]) =
+    (4%nat, Some (observe (parse_whole true true 100 [40; 97; 10; 10; 32; 32; 10; 98; 41]))) /\
+  repl_obs (repl_read true true 100 (p_init 100) [[96; 120]; []; [121; 96]; [122]]) =
+    (3%nat, Some (StDone, [SStr true [120; 10; 10; 121]])) /\
+  snd (repl_read true true 100 (p_init 100) [[40; 97]; [98]]) = None.
+Proof. vm_compute. repeat split; reflexivity. Qed.
+
+(* an earlier text abandoned inside "[1 {" (suspended in the brace look-ahead), then Stop, a stream queued and
+   never parsed, then the text "(b)" in the pieces "(", "b", ")" with only the last one parsed *)
+Definition ex_unwind (o : outcome) (l : lstate) : outcome * lstate := (OErr [SInt 7], l).
+Definition ex_history : list call := [CResetAdd [91; 49; 32; 123]; CParse; CStop; CNewInput [40; 40]].
+Example ex_calls :
+  observe (read_after true true 100 ex_unwind false ex_history [40; 98; 41]) = (StDone, [SPair (sym [98]) SNull]) /\
+  observe (read_after true true 100 ex_unwind true ex_history [40; 98; 41]) = (StDone, [SPair (sym [98]) SNull]) /\
+  observe (read_pieces_after true true 100 ex_unwind ex_history [[40]; [98]; [41]] [false; false]) = (StDone, [SPair (sym [98]) SNull]) /\
+  fst (observe (par_out (do_calls true true 100 ex_unwind (new_parser 100) [CResetAdd [91; 49; 32; 123]; CParse]))) = StMore.
+Proof. vm_compute. repeat split; reflexivity. Qed.
